@@ -19,7 +19,7 @@ RULES = {
           "flushes; every other output effect of the method (image deletion, super().draw_screen) is inside that try",
     "R2": "delete before draw: _ti_clear_images() runs before super().draw_screen() when the canvas changed; its deletions go through the buffered "
           "self.write path; the identity of an on-screen image view is (canvas, row, col, trim..., cols, rows) - every geometric component unpacked from the "
-          "canvas view is part of the key; _ti_image_cviews is replaced by the set computed from the new canvas on every path that inspected it; a delete-all (`clear_images()` without widgets) lies on no cycle of the method's flow graph; the shard tails are aged after the last view of each shard as well as before every view",
+          "canvas view is part of the key; _ti_image_cviews is replaced by the set computed from the new canvas on every path that inspected it; a delete-all (`clear_images()` without widgets) lies on no cycle of the method's flow graph; the shard tails are aged after the last view of each shard as well as before every view; the widget's blend=False depends only on the image type and the konsole exception",
     "R3": "images are cleared on clear(), _start() (after super()._start) and _stop() (before super()._stop()); a clear - immediate or deferred - "
           "always changes the canvas disguise so that urwid's line cache redraws the images",
     "R4": "z-index allocator ownership: _ti_z_index is only stored from _ti_get_z_index(); the free list is only added to in __del__ and popped in "
@@ -303,6 +303,7 @@ MUTANTS = [
     M("overflow-2-32", W, "UrwidImage._ti_get_z_index", "if z_index == 2**31:", "if z_index == 2**32:", {"R4"}),
     M("delete-all-per-view", W, "UrwidImageScreen._ti_clear_images", "                self.clear_images()\n                # Multiple `clear_images()`s messes up the canvas disguise\n                # A single `clear_images()` takes care of all images anyways\n                break\n", "                self.clear_images()\n", {"R2"}),
     M("tails-not-aged-at-shard-end", W, "UrwidImageScreen._ti_clear_images", "                col += cols\n            process_shard_tails()\n            row += n_rows\n", "                col += cols\n            row += n_rows\n", {"R2"}),
+    M("blend-needs-version", W, "UrwidImage.__init__", '            if get_terminal_name_version()[0] != "konsole":\n', '            if get_terminal_name_version()[0] != "konsole" and KittyImage._KITTY_VERSION > (0, 25, 0):\n', {"R2"}),
     M("twin-key-order", W, "UrwidImageScreen._ti_clear_images", "image_cviews.add((canv, row, col, *trim, cols, rows))", "image_cviews.add((canv, row, col, cols, rows, *trim))", twin=True),
     M("revert-fix-frozenset-clear", W, "UrwidImageScreen._ti_clear_images", "                self._ti_image_cviews = frozenset()\n", "                self._ti_image_cviews.clear()\n", {"R5", "R2"}),
     M("key-loses-cols", W, "UrwidImageScreen._ti_clear_images", "image_cviews.add((canv, row, col, *trim, cols, rows))", "image_cviews.add((canv, row, col, *trim, rows))", {"R2"}),
